@@ -22,11 +22,14 @@ macro_rules! harnesses {
 }
 
 pub mod c35;
+pub mod c01;
 pub mod c05;
 pub mod c06;
 pub mod c07;
 pub mod c10;
+pub mod asmh;
 pub mod c25;
+pub mod c26;
 pub mod c15;
 pub mod kstep;
 pub mod c08;
@@ -42,7 +45,7 @@ pub mod c34;
 pub mod probe;
 
 pub fn tables() -> Vec<&'static [(&'static str, fn())]> {
-    vec![c05::TABLE, c07::TABLE, c10::TABLE, c10::k::TABLE, c25::TABLE, c35::TABLE, c06::TABLE, c15::TABLE, c08::TABLE, c09::TABLE, c14::TABLE, c16::TABLE, c27::TABLE, c28::TABLE, c32::TABLE, c33::TABLE, c34::TABLE, probe::TABLE]
+    vec![c01::TABLE, c05::TABLE, c07::TABLE, c10::TABLE, c10::k::TABLE, c25::TABLE, c26::TABLE, c35::TABLE, c06::TABLE, c15::TABLE, c08::TABLE, c09::TABLE, c14::TABLE, c16::TABLE, c27::TABLE, c28::TABLE, c32::TABLE, c33::TABLE, c34::TABLE, probe::TABLE]
 }
 
 pub fn lookup(name: &str) -> Option<fn()> {
